@@ -178,7 +178,7 @@ func Compare(exp *ref.Result, out *Outcome, o CompareOpts) string {
 		return ""
 	}
 	if !ref.Match(exp.Data, out.Data) {
-		return "data differs"
+		return "data differs at " + ref.Mismatch(exp.Data, out.Data)
 	}
 	if o.IgnoreErrors {
 		return ""
